@@ -18,7 +18,7 @@ func init() {
 	mc.Register(&mc.Property{
 		ID:    "C14",
 		Title: "The parser is total",
-		Rule: "(a) every valid script of the grammar-complete generator up to weight W; (b) deviation-bounded edits of each, in a one-line layout and in a one-token-per-line layout with mixed LF / CRLF endings: truncation at EVERY byte offset, deletion and duplication of every token, insertion before and replacement of every token by every entry of a " + alphaN + "-entry token alphabet (all token kinds, 25-digit numerals, 08%, 1/0, non-ASCII, unterminated string / comment, stray characters); (c) ALL token sequences of length <= L over that alphabet (token soups); " +
+		Rule: "(a) every valid script of the grammar-complete generator up to weight W; (b) deviation-bounded edits of each, in a one-line layout and in a one-token-per-line layout with mixed LF / CRLF endings: truncation at EVERY byte offset, deletion and duplication of every token and of every whole construct (declaration, statement, clause), insertion before and replacement of every token by every entry of a " + alphaN + "-entry token alphabet (all token kinds, 25-digit numerals, 08%, 1/0, non-ASCII, unterminated string / comment, stray characters); (c) ALL token sequences of length <= L over that alphabet (token soups); " +
 			"oracle: Parse returns without panicking; the reference recognizer (maximal-munch lexer + Earley over the grammar of Numscript.g4) says valid => zero errors, invalid => >= 1 error; every error starts inside the text or at its end; ParseErrorsToString does not panic; " +
 			"non-trivial = the text is not a generator script as such (it was edited or is a soup); distinct = the text",
 		Assumptions: []string{"texts whose lexing depends on nested comment openers are not modelled by the reference lexer and are only checked for crashes and error positions", "the reference grammar is a transcription of Numscript.g4; its agreement with the generated parser on every explored text is itself part of what is checked"},
@@ -37,6 +37,8 @@ var tokenAlphabet = []string{
 	"1234567890123456789012345", "99999999999999999999%", "1.8446744073709551616%", "123456789012345678901234567890/7", "7/123456789012345678901234567890", "9223372036854775808", "-9223372036854775809", "08%", "1/0", "\"é€\"", "é", "\"unterminated", "/* unterminated", "// c\n", "-7", "12.5%", "$1", "@", "%",
 	// blanks inside a ratio (each optional on its own); a line comment that runs to the end of the text
 	"1/ 6", "1 /6", "3 / 4", "// c",
+	// numerals that are long only because of leading zeros
+	"00000000000000000042", "-000000000000000000000042",
 }
 
 var alphaN = strconv.Itoa(len(tokenAlphabet))
@@ -70,8 +72,27 @@ func textSpace(w *mc.Worker, tier string, body func(text string, edited bool)) {
 			}
 			w.Owned()
 			w.Inner(0, func(in *mc.Explorer) {
-				kind := in.Choose(6)
+				kind := in.Choose(8)
 				switch kind {
+				case 6, 7: // duplicate / delete a whole construct (a copied or cut declaration, statement, clause)
+					var spans []gen.NodeSpan
+					for _, sp := range pr.Spans {
+						switch sp.Kind {
+						case "VarDecl", "SendStatement", "SaveStatement", "FnCall", "SourceAllotmentItem", "DestinationAllotmentItem", "DestinationInorderClause", "SourceCapped", "SourceOverdraft":
+							spans = append(spans, sp)
+						}
+					}
+					if len(spans) == 0 {
+						return
+					}
+					sp := spans[in.Choose(len(spans))]
+					toks := append([]string{}, pr.Toks[:sp.First]...)
+					if kind == 6 {
+						toks = append(toks, pr.Toks[sp.First:sp.Last+1]...)
+						toks = append(toks, pr.Toks[sp.First:sp.Last+1]...)
+					}
+					toks = append(toks, pr.Toks[sp.Last+1:]...)
+					once(strings.Join(toks, " ")+"\n", true)
 				case 0:
 					once(base, false)
 				case 1: // truncation at every byte offset
